@@ -115,6 +115,8 @@ type c15Case struct {
 	types [][2]string
 }
 
+const c15OverlapRoot = "{\n  @plain: 1,\n  @ruled: 2, // the third key fits this type as well\n  @plain2: 3\n}"
+
 var c15Cases = []c15Case{
 	{`@t`, [][2]string{{"@t", `12`}}},
 	{`@t`, [][2]string{{"@t", `{"a": "x"}`}}},
@@ -149,6 +151,16 @@ var c15Cases = []c15Case{
 	// keys written with escape sequences and inherited through allOf
 	{"{ // {allOf: \"@base\"}\n  \"own\": 1\n}", [][2]string{{"@base", "{\n  \"a\\\"b\": 1,\n  \"c\\\\d\": 2,\n  \"e\\nf\": 3\n}"}}},
 	{"{ // {allOf: [\"@base\", \"@b2\"]}\n}", [][2]string{{"@base", "{\n  \"t\\tab\": 1\n}"}, {"@b2", "{\n  \"q\\\"\": \"v\"\n}"}}},
+	// a type that is only another name for a recursive type, used after that type was cut off twice
+	{"{\n  \"a\": @node,\n  \"b\": @node,\n  \"c\": @link\n}", [][2]string{{"@link", `@node`}, {"@node", "{\n  \"child\": @node, // {optional: true}\n  \"next\": @link // {optional: true}\n}"}}},
+	{"{\n  \"a\": @link,\n  \"b\": @node,\n  \"c\": @link,\n  \"d\": @l2\n}", [][2]string{{"@link", `@node | @leaf`}, {"@l2", `@link`}, {"@leaf", `1`}, {"@node", "{\n  \"child\": @node, // {optional: true}\n  \"next\": @link // {optional: true}\n}"}}},
+	{"[\n  @node,\n  @link,\n  @node,\n  @link\n]", [][2]string{{"@link", `@node`}, {"@node", "{\n  \"kids\": [\n    @link\n  ]\n}"}}},
+	// several key shortcuts whose key types carry rules
+	{"{\n  @id: 1,\n  @name: \"x\"\n}", [][2]string{{"@id", `"id-1" // {regex: "id-[0-9]+"}`}, {"@name", `"name_a" // {regex: "name_[a-z]+"}`}}},
+	{"{\n  @id: 1,\n  @name: \"x\",\n  @third: true\n}", [][2]string{{"@id", `"ab" // {minLength: 2, maxLength: 2}`}, {"@name", `"abc" // {minLength: 3}`}, {"@third", `"q" // {enum: ["q", "r"]}`}}},
+	{"{\n  @plain: 1,\n  @ruled: 2,\n  @plain2: 3\n}", [][2]string{{"@plain", `"p"`}, {"@ruled", `"rr" // {minLength: 2}`}, {"@plain2", `"z"`}}},
+	// ... and one whose example key also fits the key type of a shortcut declared earlier (known finding)
+	{c15OverlapRoot, [][2]string{{"@plain", `"p"`}, {"@ruled", `"rr" // {minLength: 2}`}, {"@plain2", `"zzz"`}}},
 	// a list of alternatives that also spells out its type
 	{`@a | @b // {type: "mixed"}`, [][2]string{{"@a", `1`}, {"@b", `"s"`}}},
 	{"{\n  \"x\": @a | @b // {type: \"mixed\"}\n}", [][2]string{{"@a", `{"y": 1}`}, {"@b", `"s"`}}},
@@ -160,6 +172,9 @@ var c15Cases = []c15Case{
 func ZZC15Types() {
 	c := c15Cases[v.Choose(0, len(c15Cases)-1)]
 	v.Observe("schema", c.root)
+	if c.root == c15OverlapRoot {
+		v.Observe("overlap", "example-key-fits-an-earlier-key-shortcut")
+	}
 	s := jschema.New("s", c.root)
 	for _, t := range c.types {
 		v.Assert(s.AddType(t[0], jschema.New(t[0], t[1])) == nil, "C15/addtype-failed")
